@@ -491,10 +491,16 @@ func (d *Pegnetd) SyncBlock(ctx context.Context, tx *sql.Tx, height uint32) erro
 				// We need to handle the no rates case. Miners could avoid mining this last block.
 				// use the last valid rates from last block
 				rates, err = d.Pegnet.SelectPendingRates(ctx, tx, height-1)
+				if err != nil {
+					return err
+				}
 			}
 
 			if (rates == nil || len(rates) == 0) && height >= config.V202EnhanceActivation {
 				rates, _, err = d.Pegnet.SelectMostRecentRatesBeforeHeight(ctx, tx, height)
+				if err != nil {
+					return err
+				}
 			}
 
 			// If no rates for second time, skip Snapshot logic
